@@ -45,11 +45,13 @@ BatchOf(w, ph) == IF ph = "files" THEN Req[w] ELSE {DirOf[w]}
 \*   transfer-style: LocalHashFileDB.oids_exist -> check(): a 0o444 file is trusted, anything else is re-hashed:
 \*                   mismatch -> removed, match -> protected
 \*   add-style:      ObjectDB.add(check_exists=True): the final path exists (any content)
+\*   addv:           add-style on a store opened with verify=True: HashFileDB.add first runs check() on every oid it is
+\*                   given, which heals what a crash left behind exactly like the transfer-style query
 Query(w) ==
     /\ pc[w] = "query"
     /\ LET all == Req[w] \cup {DirOf[w]}
            bad == {o \in all : final[o] = "empty" /\ ~prot[o]}
-       IN IF Style[w] = "transfer"
+       IN IF Style[w] \in {"transfer", "addv"}
           THEN /\ final' = [o \in Objects |-> IF o \in bad THEN "none" ELSE final[o]]
                /\ prot' = [o \in Objects |-> IF o \in all /\ final[o] = "ok" THEN TRUE ELSE IF o \in bad THEN FALSE ELSE prot[o]]
                /\ todo' = [todo EXCEPT ![w] = {o \in all : final[o] = "none" \/ o \in bad}]
@@ -93,7 +95,7 @@ ProbeUnlink(w, o) ==
     /\ UNCHANGED <<gen, vouch, tmp, pc, todo, batch, failedW, crashes, clock, dev, probed, owner, tried>>
 \* the probed object is copied first, the others afterwards (one put_file each: copy to a temporary name, rename)
 CanCopy(w, o) == /\ Phase(w) /\ o \in Pending(w) /\ tmp[w][o] = "none"
-                 /\ (first[w] = "probed" /\ probed[w] = o) \/ first[w] = "copied" \/ (pc[w] = "dir" /\ Style[w] = "add")
+                 /\ (first[w] = "probed" /\ probed[w] = o) \/ first[w] = "copied" \/ (pc[w] = "dir" /\ Style[w] # "transfer")
 TmpCopy(w, o) ==
     /\ CanCopy(w, o)
     /\ tmp' = [tmp EXCEPT ![w][o] = "full"]
@@ -114,8 +116,16 @@ Rename(w, o) ==
 \* callers (index.save, build with upload) pass the whole batch, also what "already exists".
 Epilogue(w) == IF Style[w] = "transfer" THEN batch[w] ELSE BatchOf(w, pc[w])
 Sealable(w) == Phase(w) /\ Pending(w) = {} /\ \A o \in Objects : tmp[w][o] = "none" /\ first[w] # "unlink"
+\* addv: the epilogue verifies each object before protecting it - check() re-hashes it through the state cache, which
+\* records a row for it, and only then makes it read-only
+VerifyOne(w, o) ==
+    /\ Style[w] = "addv" /\ Sealable(w) /\ o \in Epilogue(w) /\ final[o] = "ok" /\ ~prot[o] /\ ~Vouched(o)
+    /\ vouch' = [vouch EXCEPT ![o] = gen[o]]
+    /\ act' = [op |-> "VerifyOne", w |-> w, o |-> o]
+    /\ UNCHANGED <<final, prot, gen, tmp, pc, todo, batch, first, probed, failedW, crashes, clock, dev, owner, tried>>
 Protect(w, o) ==
     /\ Sealable(w) /\ o \in Epilogue(w) /\ final[o] # "none" /\ ~prot[o] /\ o \notin tried[w]
+    /\ (Style[w] = "addv" /\ final[o] = "ok") => Vouched(o)
     \* named behaviour: chmod of a file that another uid owns gives EPERM; protect() logs it and goes on - the owner
     \* protects the object in its own epilogue
     /\ prot' = IF Mixed /\ owner[o] # w THEN prot ELSE [prot EXCEPT ![o] = TRUE]
@@ -160,7 +170,7 @@ Rerun(w) ==
 
 Next ==
     \/ \E w \in Writers : Query(w) \/ Vouch(w) \/ NothingToSend(w) \/ Rerun(w)
-    \/ \E w \in Writers, o \in Objects : ProbeOpen(w, o) \/ ProbeUnlink(w, o) \/ TmpCopy(w, o) \/ Rename(w, o) \/ Protect(w, o)
+    \/ \E w \in Writers, o \in Objects : ProbeOpen(w, o) \/ ProbeUnlink(w, o) \/ TmpCopy(w, o) \/ Rename(w, o) \/ Protect(w, o) \/ VerifyOne(w, o)
     \/ Crash
 
 Init == /\ final = [o \in Objects |-> "none"] /\ prot = [o \in Objects |-> FALSE] /\ gen = [o \in Objects |-> 0]
